@@ -616,3 +616,21 @@ Proof.
   - rewrite (nat_impl_exact 16 s v); auto.
   - rewrite (nat_impl_bad 16 s); auto.
 Qed.
+
+(** * non-vacuity: the hypotheses of the restricted / conditional theorems hold on non-trivial instances *)
+Example esc_json_refines_inst :
+  has_del_c1 [97; 34; 233; 10; 1; 92; 128512] = false /\
+  esc_json_impl [97; 34; 233; 10; 1; 92; 128512] = Some (encode (esc_json_spec [97; 34; 233; 10; 1; 92; 128512])).
+Proof. split; [reflexivity|]. now apply esc_json_refines. Qed.
+Example eq_ic_refines_inst : eq_ic_impl (encode [97; 233; 75]) (encode [65; 233; 107]) = eq_ic_spec [97; 233; 75] [65; 233; 107]
+  /\ eq_ic_spec [97; 233; 75] [65; 233; 107] = true.
+Proof. split; [now apply eq_ic_refines|reflexivity]. Qed.
+Example parse_int_exact_inst : int_spec [45; 49; 50] = Some (-12)%Z /\ parse_int_impl [45; 49; 50] = RInt (-12).
+Proof. split; [reflexivity|]. now apply parse_int_exact. Qed.
+Example parse_int_rejects_inst : int_spec [45] = None /\ int_spec [49; 45] = None /\ parse_int_impl [49; 45] = RErr.
+Proof. repeat split; try reflexivity. Qed.
+Example str_replace_refines_inst :
+  str_replace_impl [233; 97; 233] [233] [128512] = Some (encode [128512; 97; 128512]).
+Proof. now rewrite str_replace_refines. Qed.
+Example strip_shape_inst : strip_spec [32; 97; 32; 98; 32] [32] = [97; 32; 98].
+Proof. reflexivity. Qed.
